@@ -1,7 +1,9 @@
 //! Plans (explicit, serialisable descriptions of one run), their dispatch, and minimisation.
 
 use crate::report::RunOut;
+use crate::compat;
 use crate::conc;
+use crate::crash;
 use crate::fault;
 use crate::seq;
 use crate::twin;
@@ -17,6 +19,8 @@ pub enum Plan {
     Wire(wire::WirePlan),
     Conc(conc::ConcPlan),
     Fault(fault::FaultPlan),
+    Crash(crash::CrashPlan),
+    Compat(compat::CompatPlan),
 }
 
 #[derive(Clone, Debug, Serialize, Deserialize, PartialEq)]
@@ -27,6 +31,8 @@ pub enum JobKind {
     Wire { backend: Backend },
     Conc { backend: Backend, entry: Entry },
     Fault { entry: Entry, layer: fault::FaultLayer },
+    Crash { entry: Entry },
+    Compat,
 }
 
 #[derive(Clone, Debug)]
@@ -37,7 +43,7 @@ pub struct Job {
     pub thorough: u64,
 }
 
-pub fn gen(kind: &JobKind, seed: u64, thorough: bool) -> Plan {
+pub fn gen(kind: &JobKind, seed: u64, idx: u64, thorough: bool) -> Plan {
     match kind {
         JobKind::Seq { backend, entry, focus } => Plan::Seq(seq::gen_plan(seed, *backend, *entry, *focus, thorough)),
         JobKind::Twin { mode } => Plan::Twin(twin::gen_plan(seed, *mode, thorough)),
@@ -45,6 +51,8 @@ pub fn gen(kind: &JobKind, seed: u64, thorough: bool) -> Plan {
         JobKind::Wire { backend } => Plan::Wire(wire::gen_plan(seed, *backend, thorough)),
         JobKind::Conc { backend, entry } => Plan::Conc(conc::gen_plan(seed, *backend, *entry, thorough)),
         JobKind::Fault { entry, layer } => Plan::Fault(fault::gen_plan(seed, *entry, *layer, thorough)),
+        JobKind::Crash { entry } => Plan::Crash(crash::gen_plan(seed, *entry, thorough)),
+        JobKind::Compat => Plan::Compat(compat::gen_plan(seed, idx)),
     }
 }
 
@@ -56,6 +64,8 @@ pub fn exec(plan: &Plan) -> RunOut {
         Plan::Wire(p) => wire::exec(p),
         Plan::Conc(p) => conc::exec(p),
         Plan::Fault(p) => fault::exec(p),
+        Plan::Crash(p) => crash::exec(p),
+        Plan::Compat(p) => compat::exec(p),
     }
 }
 
@@ -67,6 +77,8 @@ pub fn scenario_name(plan: &Plan) -> &'static str {
         Plan::Wire(_) => "wire",
         Plan::Conc(_) => "conc",
         Plan::Fault(_) => "fault",
+        Plan::Crash(_) => "crash",
+        Plan::Compat(_) => "compat",
     }
 }
 
@@ -77,6 +89,8 @@ pub fn size(plan: &Plan) -> usize {
         Plan::Iso(p) => p.ops.len(),
         Plan::Wire(p) => p.ops.len() + p.setup.len(),
         Plan::Fault(p) => p.ops.len(),
+        Plan::Crash(p) => p.ops.len(),
+        Plan::Compat(_) => 1,
         Plan::Conc(p) => p.prefix.len() + p.batch.iter().map(|t| t.len()).sum::<usize>() + p.sched.replay.as_ref().map(|r| r.windows(2).filter(|w| w[0] != w[1]).count()).unwrap_or(0),
     }
 }
@@ -89,6 +103,8 @@ fn candidates(plan: &Plan) -> Vec<Plan> {
         Plan::Wire(p) => wire::shrink(p).into_iter().map(Plan::Wire).collect(),
         Plan::Conc(p) => conc::shrink(p).into_iter().map(Plan::Conc).collect(),
         Plan::Fault(p) => fault::shrink(p).into_iter().map(Plan::Fault).collect(),
+        Plan::Crash(p) => crash::shrink(p).into_iter().map(Plan::Crash).collect(),
+        Plan::Compat(_) => vec![],
     }
 }
 
